@@ -1035,6 +1035,12 @@ func sentinelError(g *ssa.Global) bool {
 	}
 	res := false
 	stores := 0
+	// standard-library sentinels (bodies are not loaded): io.EOF, io.ErrUnexpectedEOF, …
+	if g.Pkg != nil && g.Pkg.Pkg != nil && (g.Pkg.Pkg.Path() == "io" || g.Pkg.Pkg.Path() == "errors" || g.Pkg.Pkg.Path() == "os") &&
+		(g.Name() == "EOF" || strings.HasPrefix(g.Name(), "Err")) && isErrorType(g.Type().(*types.Pointer).Elem()) {
+		sentinelCache[g] = true
+		return true
+	}
 	if g.Pkg != nil {
 		for _, m := range g.Pkg.Members {
 			fn, ok := m.(*ssa.Function)
